@@ -150,6 +150,21 @@ def gen(seed, tier):
                                 seg(0, [g.f_long(r.choice([20, 21]), icao, None, clean_reg(g, kind))])]
                         cases.append(H("C10-m%d" % n, o, segs))
                         n += 1
+    # (d) the capability is the CA field of DF11 (and of DF17 under -U), never the CF field of a DF18 frame: DF18 / DF17 frames
+    #     with every 3-bit value between the capability report and the Comm-B reply, both gate directions
+    for cf in range(8):
+        for ca in (5, 0, 3, 4):
+            for df in (18, 17):
+                for u in (0, 1):
+                    icao = r.choice(ICAOS)
+                    o = {"U": 1} if u else {}
+                    kind = r.choice(["40", "50", "60"])
+                    segs = [seg(0, [g.f_df11(icao, ca=ca)]), seg(0, [g.f_long(20, icao, None, bds17([9, 16, 24]))]),
+                            seg(0, [g.f_df17(icao, g.me_random_tc(r.choice([11, 19, 4, 29])), ca=cf, df=df)]),
+                            seg(0, [g.f_long(r.choice([20, 21]), icao, None, clean_reg(g, kind))]),
+                            seg(0, [g.f_long(r.choice([20, 21]), icao, None, bds20([r.randint(1, 26) for _ in range(8)]))])]
+                    cases.append(H("C10-d%d" % n, o, segs))
+                    n += 1
     # (c) first match wins: a register that satisfies the rules of two registers is decoded as the earlier one only
     for i in range(24 if tier == "quick" else 200):
         icao = r.choice(ICAOS)
@@ -212,7 +227,8 @@ def oracle(parts, outcome, obs):
     osegs = obs.split("#")
     fails = []
     prev = None
-    ca = 0
+    use_u = opts.get("U") == "1"
+    cap_strict = cap_lenient = 0     # CA of the latest DF11 (+ DF17 on an existing row under -U) / of the latest DF11 or DF17
     for k, (t, lines) in enumerate(segs):
         rows = pyspec.rows_of(osegs[k]) if k < len(osegs) else {}
         if not rows:
@@ -221,7 +237,8 @@ def oracle(parts, outcome, obs):
         fr = pyspec.frame_of_line(lines[0])
         if fr and fr != "zero" and prev is not None:
             df, icao, v, nb = fr
-            if df in (20, 21):
+            if df in (20, 21) and (relaxed or (cap_strict >= 4) == (cap_lenient >= 4)):
+                ca = cap_strict
                 gate = relaxed or ca >= 4
                 changed = [f for f in MBF if row.get(f) != prev.get(f)]
                 if not gate:
@@ -258,10 +275,12 @@ def oracle(parts, outcome, obs):
                                         fails.append("segment %d: valid BDS %s register, %s shows %s, Doc 9871 decoding is %s" % (k, name, f, got, want))
                                 break
                             # not advertised: the inference moves on to the next register
-            ca_new = int(row.get("ca", "0"))
-            ca = ca_new
-        else:
-            ca = int(row.get("ca", "0"))
+        if fr and fr != "zero":
+            df, icao, v, nb = fr
+            if df == 11 or (df == 17 and use_u and prev is not None):
+                cap_strict = getbits(v, nb, 6, 8)
+            if df in (11, 17):
+                cap_lenient = getbits(v, nb, 6, 8)
         prev = row
     return fails
 
